@@ -1,0 +1,125 @@
+//go:build verif
+
+// Verification-only exports (build tag verif), part 2:
+//   - a Peer with a REAL memberlist on a caller-supplied memberlist.Transport (in-memory hub in the harness),
+//     so that membership histories (join, crash without leave, restart at the same address under a new name,
+//     late death of the old name) can be played against the real AddState / delegate / peer bookkeeping;
+//   - the TLS transport's packet framing (tlsConn.writePacket / tlsConn.read) on a caller-supplied net.Conn.
+// This file only adds code; nothing here is compiled without the tag.
+
+package cluster
+
+import (
+	"fmt"
+	"log/slog"
+	"net"
+	"strconv"
+
+	"github.com/hashicorp/memberlist"
+	"github.com/prometheus/client_golang/prometheus"
+)
+
+// NewPeerWithTransportForVerif mirrors Create (same Peer fields, same delegate wiring, same memberlist
+// configuration) except that name resolution is skipped (knownPeers must be ip:port literals) and the
+// memberlist runs on the given transport. tune may adjust the memberlist timing knobs.
+func NewPeerWithTransportForVerif(
+	l *slog.Logger,
+	reg prometheus.Registerer,
+	bindAddr string,
+	knownPeers []string,
+	name string,
+	transport memberlist.Transport,
+	tune func(*memberlist.Config),
+) (*Peer, error) {
+	bindHost, bindPortStr, err := net.SplitHostPort(bindAddr)
+	if err != nil {
+		return nil, fmt.Errorf("invalid listen address: %w", err)
+	}
+	bindPort, err := strconv.Atoi(bindPortStr)
+	if err != nil {
+		return nil, fmt.Errorf("address %s: invalid port: %w", bindAddr, err)
+	}
+
+	p := &Peer{
+		states:              map[string]State{},
+		stopc:               make(chan struct{}),
+		readyc:              make(chan struct{}),
+		logger:              l,
+		peers:               map[string]peer{},
+		resolvedPeers:       knownPeers,
+		resolvePeersTimeout: DefaultResolvePeersTimeout,
+		knownPeers:          knownPeers,
+	}
+
+	p.register(reg, name)
+
+	retransmit := max(len(knownPeers)/2, 3)
+	p.delegate = newDelegate(l, reg, p, retransmit)
+
+	cfg := memberlist.DefaultLANConfig()
+	cfg.Name = name
+	cfg.BindAddr = bindHost
+	cfg.BindPort = bindPort
+	cfg.Delegate = p.delegate
+	cfg.Ping = p.delegate
+	cfg.Alive = p.delegate
+	cfg.Events = p.delegate
+	cfg.Conflict = p.delegate
+	cfg.GossipInterval = DefaultGossipInterval
+	cfg.PushPullInterval = DefaultPushPullInterval
+	cfg.TCPTimeout = DefaultTCPTimeout
+	cfg.ProbeTimeout = DefaultProbeTimeout
+	cfg.ProbeInterval = DefaultProbeInterval
+	cfg.Logger = slog.NewLogLogger(l.Handler(), slog.LevelDebug)
+	cfg.GossipNodes = retransmit
+	cfg.UDPBufferSize = MaxGossipPacketSize
+	cfg.Transport = transport
+	if tune != nil {
+		tune(cfg)
+	}
+
+	p.setInitialFailed(knownPeers, bindAddr)
+
+	ml, err := memberlist.Create(cfg)
+	if err != nil {
+		return nil, fmt.Errorf("create memberlist: %w", err)
+	}
+	p.mlist = ml
+	return p, nil
+}
+
+// JoinForVerif joins the given ip:port addresses once, without starting the periodic reconnect / refresh tasks.
+func (p *Peer) JoinForVerif(addrs []string) (int, error) { return p.mlist.Join(addrs) }
+
+// CrashForVerif stops the instance WITHOUT announcing a leave (what a killed process looks like to its peers).
+func (p *Peer) CrashForVerif() error {
+	close(p.stopc)
+	return p.mlist.Shutdown()
+}
+
+// PeerStatusesForVerif dumps the alive/failed bookkeeping (Peer.peers), keyed as the code keys it.
+func (p *Peer) PeerStatusesForVerif() map[string]string {
+	p.peerLock.RLock()
+	defer p.peerLock.RUnlock()
+	out := map[string]string{}
+	for k, pr := range p.peers {
+		out[k] = pr.status.String()
+	}
+	return out
+}
+
+// TLSConnForVerif is the TLS transport's pooled connection wrapper on an arbitrary net.Conn.
+type TLSConnForVerif struct{ c *tlsConn }
+
+// NewTLSConnForVerif wraps conn the way dialTLSConn wraps a dialled TLS connection.
+func NewTLSConnForVerif(conn net.Conn) *TLSConnForVerif {
+	return &TLSConnForVerif{c: &tlsConn{connection: conn, live: true}}
+}
+
+// WritePacket is tlsConn.writePacket (what TLSTransport.WriteTo calls on the pooled connection).
+func (t *TLSConnForVerif) WritePacket(fromAddr string, b []byte) error {
+	return t.c.writePacket(fromAddr, b)
+}
+
+// ReadTLSPacketForVerif is one iteration of TLSTransport.handle's loop: rcvTLSConn(conn).read().
+func ReadTLSPacketForVerif(conn net.Conn) (*memberlist.Packet, error) { return rcvTLSConn(conn).read() }
